@@ -135,6 +135,33 @@ theorem forget_everything_zero (s : State) :
     (step s .fall).1.cache = [] ∧ (step s .fall).1.usage = 0 := by
   simp [step, stepRaw, prune, forgetEverything]
 
+/-! ## Group queries (`is_all_memoized`) -/
+
+/-- (3, group queries) `is_all_memoized` over a group of calls leaves every entry resident and marks **every** queried
+    call that is resident as used — also those listed after a call that is not memoized: afterwards each of them was used
+    later than every call outside the group, so a put that needs room drops the calls outside the group first
+    (`put_evicts_lru_prefix`). The answer is "all of them are resident or still referenced". -/
+theorem group_query_marks_every_resident {s : State} (h : Inv s) (ks : List Key) (k : Key) (hk : k ∈ ks)
+    (hres : k ∈ keys s.cache) (j : Key) (hj : j ∉ ks) :
+    let s' := (step s (.allmem ks)).1
+    s'.cache = s.cache ∧ s'.stamp j = s.stamp j ∧ s'.stamp j < s'.stamp k := by
+  simp only [step, stepRaw, prune]
+  refine ⟨isAllMemoized_cache ks s, isAllMemoized_stamp_other ks j hj s, ?_⟩
+  rw [isAllMemoized_stamp_other ks j hj s]
+  exact Nat.lt_of_lt_of_le (h.stamp_lt j) (isAllMemoized_stamp_queried ks k hk s hres)
+
+theorem group_query_answer (ks : List Key) : ∀ s : State,
+    (isAllMemoized s ks).2 = ks.all (fun k => hasKey s.cache k || (refLookup s.refs k).isSome) := by
+  induction ks with
+  | nil => intro s; rfl
+  | cons k ks ih =>
+    intro s
+    simp only [isAllMemoized, List.all_cons]
+    rw [ih, isMemoized_cache, isMemoized_refs]
+    congr 1
+    unfold isMemoized
+    split <;> simp_all
+
 /-! ## Non-vacuity: concrete reachable states exercising the hypotheses -/
 
 private def k1 : Key := ⟨1, 1⟩
@@ -149,5 +176,9 @@ private def demoOps : List Op :=
 example : keys (run (init 100) demoOps).cache = [k3] ∧ (run (init 100) demoOps).usage = 40 := by decide
 example : keys (run (init 100) (demoOps.take 4)).cache = [k1, k3] := by decide   -- k2 (LRU) was dropped, k1 kept
 example : (run (init 100) (demoOps ++ [.fcall k3])).usage = 0 := by decide
+/-- a group query `[missing, k1]` marks k1 used although it is listed after a call that is not memoized: the next put
+    that needs room drops k2 and keeps k1 -/
+example : keys (run (init 100) [.put k1 10 101 40 false true none, .put k2 11 102 40 false true none,
+    .allmem [k3, k1], .put k3 12 103 40 false true none]).cache = [k1, k3] := by decide
 
 end Memento.Cache
